@@ -22,6 +22,11 @@ Line protocol of the C03 model driver.
       copyvalues hard|soft <m|->:<o> ... / <m|->:<o> ...     (input pairs / output pairs)
       run <n> <c>=<v>|<c>=@<o> ...
       strict <c> 0|1            flag <n> <running 0|1> <failed 0|1>
+      rt <scope c>... [| I=<c,..> RO=<a:b,..> MI=<c,..> RI=<a:b,..> CO=<c,..> RM=<a:b,..>]...
+                                pickle round trip of the object with channels `scope`; one `|` group per
+                                composite, innermost first (the six fields of `Data.Comp`)
+    setup, continued:
+      cfg <revIter 0|1> <pushLinks 0|1>    variant of __setstate__ (pinned tree: 0 1)
 -/
 
 structure St where
@@ -31,24 +36,30 @@ structure St where
   rejects : List (Nat × Nat)
   hintbad : List (Nat × Nat)
   fuel : Nat
+  cfg : Cfg
 
 def St.params (st : St) : Params :=
   { admits := fun c v => match v with
       | .nd => true
       | .d k => !(st.rejects.contains (c, k))
+      | .nd2 => false
     hintOk := fun a b => !(st.hintbad.contains (a, b))
-    fn := fun _ args => args }
+    fn := fun _ args => args
+    -- the current tree: `NotData.__reduce__` names the global singleton, data is copied by value
+    copyVal := id
+    cfg := st.cfg }
 
 def init0 : St :=
   { s := Data.init (fun _ => .dataIn) (fun _ => 0) (fun _ => false) (fun _ => true) (fun _ => []) (fun _ => []),
-    chans := [], nodes := [], rejects := [], hintbad := [], fuel := 40 }
+    chans := [], nodes := [], rejects := [], hintbad := [], fuel := 40, cfg := Cfg.pinned }
 
 def showVal : Val → String
   | .nd => "ND"
   | .d k => toString k
+  | .nd2 => "ND2"
 
 def parseVal (w : String) : Option Val :=
-  if w = "ND" then some .nd else w.toNat?.map .d
+  if w = "ND" then some .nd else if w = "ND2" then some .nd2 else w.toNat?.map .d
 
 def parseArg (w : String) : Option Arg :=
   if w.startsWith "@" then (w.drop 1).toNat?.map .ch else (parseVal w).map .v
@@ -69,12 +80,45 @@ def parsePairs (ws : List String) : Option (List (Option Nat × Nat)) :=
       | none => none
     | _ => none
 
+def parseCsv (w : String) : Option (List Nat) :=
+  if w = "" then some [] else (w.splitOn ",").mapM (·.toNat?)
+
+def parseMap (w : String) : Option (List (Nat × Nat)) :=
+  if w = "" then some [] else
+    (w.splitOn ",").mapM fun x =>
+      match x.splitOn ":" with
+      | [a, b] => match a.toNat?, b.toNat? with
+        | some a, some b => some (a, b)
+        | _, _ => none
+      | _ => none
+
+def field (key w : String) : Option String :=
+  if w.startsWith (key ++ "=") then some (w.drop (key.length + 1)).toString else none
+
+def parseComp (ws : List String) : Option Comp :=
+  match ws with
+  | [i, ro, mi, ri, co, rm] =>
+    match (field "I" i).bind parseCsv, (field "RO" ro).bind parseMap, (field "MI" mi).bind parseCsv,
+          (field "RI" ri).bind parseMap, (field "CO" co).bind parseCsv, (field "RM" rm).bind parseMap with
+    | some i, some ro, some mi, some ri, some co, some rm =>
+      some { ins := i, resOut := ro, mins := mi, resIn := ri, couts := co, resMOut := rm }
+    | _, _, _, _, _, _ => none
+  | _ => none
+
+/-- split a token list at every "|" -/
+def groups : List String → List (List String)
+  | [] => [[]]
+  | w :: ws =>
+    match groups ws with
+    | [] => [[w]]
+    | g :: gs => if w = "|" then [] :: g :: gs else (w :: g) :: gs
+
 def parseBit (w : String) : Option Bool :=
   if w = "0" then some false else if w = "1" then some true else none
 
 def showErr : Err → String
   | .runtime => "Runtime" | .type => "Type" | .recursion => "Recursion" | .conn => "Conn"
-  | .value => "Value" | .copy => "ValueCopy" | .readiness => "Readiness"
+  | .value => "Value" | .copy => "ValueCopy" | .readiness => "Readiness" | .serial => "Serial"
 
 def showOut : Out → String
   | .ok => "ok"
@@ -191,6 +235,17 @@ def stepLine (st : St) (ws : List String) : St × List String :=
     match c.toNat?, parseBit b with
     | some c, some b => doOp st (.setStrict c b)
     | _, _ => bad
+  | ["cfg", r, p] =>
+    match parseBit r, parseBit p with
+    | some r, some p => ({ st with cfg := ⟨r, p⟩ }, [])
+    | _, _ => bad
+  | "rt" :: rest =>
+    match groups rest with
+    | scope :: comps =>
+      match nats scope, comps.mapM parseComp with
+      | some scope, some comps => doOp st (.roundTrip scope comps)
+      | _, _ => bad
+    | [] => bad
   | ["flag", n, r, f] =>
     match n.toNat?, parseBit r, parseBit f with
     | some n, some r, some f => doOp st (.flag n r f)
